@@ -143,8 +143,20 @@ def pmap(func, shards, seed, tier, nproc=None):
         return total
     ctx = multiprocessing.get_context("fork")
     with ctx.Pool(min(nproc, len(shards))) as pool:
-        for p in pool.imap_unordered(_run_shard, [(func, s, seed, tier) for s in shards]):
+        pids = {w.pid for w in pool._pool}
+        it = pool.imap_unordered(_run_shard, [(func, s, seed, tier) for s in shards])
+        got = 0
+        while got < len(shards):
+            try:
+                p = it.next(timeout=20)
+            except multiprocessing.TimeoutError:
+                # a worker that is killed from outside (or crashes) takes its shard with it and the pool would
+                # wait for ever: say so instead (workers never end by themselves)
+                if {w.pid for w in pool._pool} != pids:
+                    raise HarnessError("a worker process of this check ended unexpectedly (killed from outside, or crashed); the shard it was running is lost")
+                continue
             total.merge(p)
+            got += 1
     return total
 
 
